@@ -51,13 +51,11 @@ namespace simdrv {
 FILE* g_out = nullptr;
 std::string g_trace_path;
 
-// teardown of a World is not part of the scenario: packets sent by destructors (an acceptor
-// resetting the connections still queued on it) pass probes but are not trace events
-bool g_mute = false;
+bool g_muted = false;
 
 void emit(char const* fmt, ...)
 {
-	if (g_mute) return;
+	if (g_muted) return;
 	va_list ap;
 	va_start(ap, fmt);
 	vfprintf(g_out, fmt, ap);
